@@ -328,44 +328,77 @@ def two_forms(rep):
 
 
 def component_axes(rep):
+    """Position-based, on values: entry (i, j) of the returned 3x3 array, with every temporary
+    resolved, must contain the second derivative of the perturbation along exactly the axes
+    (i, j) -- and nothing else distinguishes it from the other diagonal (resp. off-diagonal)
+    entries: replacing d_a d_b by one symbol makes all diagonal entries one polynomial and all
+    off-diagonal entries another; the matrix is symmetric."""
+    from ..reading_rules import resolve
+    from ..symexpr import SymEval
+    from .. import symdiff
     S = rep.sources
     rel = f"{SOL}/ICPertFLRW.py"
     for q in ("gammadown3", "Kdown3"):
         fn = S.function(rel, q)
-        comps = {}
-        for st in fn.body:
-            if isinstance(st, ast.Assign) and isinstance(st.targets[0], ast.Name):
-                m = re.fullmatch(r"[gk]([xyz])([xyz])", st.targets[0].id)
-                if m:
-                    comps[st.targets[0].id] = (m.group(1), m.group(2), st)
-        if len(comps) != 6:
-            raise AnalysisError(f"{rel}::{q}: six components expected, found {sorted(comps)}")
-        shapes = {}
-        for name, (a, b, st) in comps.items():
-            dd = []
-            for n in ast.walk(st.value):
-                if isinstance(n, ast.Call) and re.fullmatch(r"fd\.d3[xyz]", unparse(n.func)) \
-                        and n.args and isinstance(n.args[0], ast.Call) \
-                        and re.fullmatch(r"fd\.d3[xyz]", unparse(n.args[0].func)):
-                    dd.append((unparse(n.func)[-1], unparse(n.args[0].func)[-1]))
-            ok = len(dd) == 1 and sorted(dd[0]) == sorted((a, b))
-            rep.check(ok, "component-axes", f"{rel}::{q}::{name}",
-                      f"component {name} is built from the second derivative along {dd}, it "
-                      f"must be along ({a}, {b})", node=st, file=rel)
-            txt = norm_src(st.value)
-            txt = re.sub(r"fd\.d3[xyz]\(fd\.d3[xyz]\(Rc\)\)", "DD", txt)
-            shapes.setdefault("diag" if a == b else "off", set()).add(txt)
-        rep.check(all(len(v) == 1 for v in shapes.values()), "component-axes",
+        rets = [st for st in ast.walk(fn) if isinstance(st, ast.Return)]
+        if len(rets) != 1:
+            raise AnalysisError(f"{rel}::{q}: single return expected")
+        mat = resolve(fn, rets[0].value)
+        rows = None
+        if isinstance(mat, ast.Call) and unparse(mat.func) in ("np.array", "np.stack") \
+                and mat.args and isinstance(mat.args[0], (ast.List, ast.Tuple)):
+            rows = [r.elts for r in mat.args[0].elts if isinstance(r, (ast.List, ast.Tuple))]
+        if not rows or len(rows) != 3 or any(len(r) != 3 for r in rows):
+            raise AnalysisError(f"{rel}::{q}: the returned 3x3 array was not found")
+        vals = {}
+        shapes = {"diag": set(), "off": set()}
+        for i, a in enumerate("xyz"):
+            for j, b in enumerate("xyz"):
+                e = rows[i][j]
+                dd = []
+                for n in ast.walk(e):
+                    if isinstance(n, ast.Call) and re.fullmatch(r"fd\.d3[xyz]", unparse(n.func)) \
+                            and n.args and isinstance(n.args[0], ast.Call) \
+                            and re.fullmatch(r"fd\.d3[xyz]", unparse(n.args[0].func)):
+                        dd.append((unparse(n.func)[-1], unparse(n.args[0].func)[-1]))
+                ok = len(dd) == 1 and sorted(dd[0]) == sorted((a, b))
+                rep.check(ok, "component-axes", f"{rel}::{q}::[{a}{b}]",
+                          f"entry ({a}, {b}) is built from the second derivative along {dd}, "
+                          f"it must be along ({a}, {b})", node=rets[0], file=rel)
+                # the same formula up to the axes: evaluate with d_a d_b -> DD
+                import copy
+
+                class T(ast.NodeTransformer):
+                    def visit_Call(self, n):
+                        if re.fullmatch(r"fd\.d3[xyz]", unparse(n.func)) and n.args \
+                                and isinstance(n.args[0], ast.Call) \
+                                and re.fullmatch(r"fd\.d3[xyz]", unparse(n.args[0].func)):
+                            return ast.Name(id="DD", ctx=ast.Load())
+                        return self.generic_visit(n)
+                e2 = T().visit(copy.deepcopy(e))
+                ev = SymEval({}, what=f"{q}[{a}{b}]", opaque_calls=True)
+
+                class Env(dict):
+                    def __missing__(self, k):
+                        return P.atom(k)
+
+                    def __contains__(self, k):
+                        return True
+                try:
+                    v = ev.ev(e2, Env())
+                except AnalysisError:
+                    v = None
+                vals[(i, j)] = v
+                shapes["diag" if i == j else "off"].add(v)
+        rep.check(all(len(v) == 1 and None not in v for v in shapes.values()), "component-axes",
                   f"{rel}::{q}::siblings",
-                  "the diagonal (resp. off-diagonal) components are not the same formula "
+                  "the diagonal (resp. off-diagonal) entries are not the same formula "
                   "under relabelling of the axes", node=fn, file=rel)
-        ret = [st for st in fn.body if isinstance(st, ast.Return)][0]
-        want = [[f"{q[0].lower()}{a}{b}" if a <= b else f"{q[0].lower()}{b}{a}"
-                 for b in "xyz"] for a in "xyz"]
-        got = [[unparse(e) for e in row.elts] for row in ret.value.args[0].elts]
-        rep.check(got == want, "component-axes", f"{rel}::{q}::assembly",
-                  f"the matrix must be assembled symmetrically in (x, y, z) order: {got}",
-                  node=ret, file=rel)
+        sym = all(unparse(rows[i][j]) == unparse(rows[j][i]) or vals[(i, j)] == vals[(j, i)]
+                  for i in range(3) for j in range(3))
+        rep.check(sym, "component-axes", f"{rel}::{q}::assembly",
+                  "the matrix must be assembled symmetrically in (x, y, z) order",
+                  node=rets[0], file=rel)
 
 
 def static_k(rep):
